@@ -239,7 +239,7 @@ def run_form_isolated(fi, pos, sheet_index, ctx, date1904=False):
               inputs, False)
 
 
-def run_form_norefs(fi, pos, ctx):
+def run_form_norefs(fi, pos, ctx, mode='all'):
     """The r attribute of rows and cells is optional: a sheet written without
     it (rows and cells in sequence from A1) is the same sheet.  The form under
     test stands at GRID[pos]; the rest of A1:E3 is filled (column E holds the
@@ -251,11 +251,11 @@ def run_form_norefs(fi, pos, ctx):
             cells['%s%d' % (c, r)] = {'form': 'n', 'v': 100 * r + ci}
     cells.update(helper_cells())
     cells[GRID[pos]] = spec
-    key0 = 'C11/norefs/%s/%s' % (fname, GRID[pos])
-    inputs = {'family': 'norefs', 'fi': fi, 'pos': pos}
-    tags = ['form:' + fname, 'xml:no-r-attributes']
+    key0 = 'C11/norefs-%s/%s/%s' % (mode, fname, GRID[pos])
+    inputs = {'family': 'norefs', 'fi': fi, 'pos': pos, 'mode': mode}
+    tags = ['form:' + fname, 'xml:no-r-attributes', 'norefs:' + mode]
     try:
-        model = load([('Sheet1', cells)], norefs=('Sheet1',))
+        model = load([('Sheet1', cells)], norefs={'Sheet1': mode})
     except Exception as exc:  # noqa: BLE001
         ctx.fail(key0 + '/load', tags, inputs, 'loads', lib.exc_obs(exc))
         return
@@ -659,6 +659,10 @@ def run_names(ctx):
                             for r in (1, 2, 3)}))
     sheets[0][1]['E5'] = {'form': 'f', 'f': 'SUM(arange)'}
     names['arange'] = "'It''s'!$B$1:$B$3"
+    # names of the workbook's names again, defined for one sheet only (where
+    # no formula uses them): on Sheet1 the workbook's names are meant
+    names[('cellname', 1)] = "'My Sheet'!$A$1"
+    names[('rangename', 2)] = "'It''s'!$B$1:$B$2"
     inputs = {'family': 'names'}
     try:
         model = load(sheets, names)
@@ -836,6 +840,7 @@ def run_shard(shard, ctx):
     elif f == 'norefs':
         for pos in range(len(GRID)):
             run_form_norefs(shard['fi'], pos, ctx)
+            run_form_norefs(shard['fi'], pos, ctx, 'constants')
         ctx.sample({'family': f, 'form': FORMS[shard['fi']][0],
                     'xml': '<row><c><v>100</v></c><c><f>E1+E2*E3</f>'
                            '<v>99.5</v></c>...'})
@@ -888,7 +893,8 @@ def replay(inputs, ctx):
     elif f == 'lone':
         run_lone(inputs['fi'], inputs['pos'], inputs['fpos'], ctx)
     elif f == 'norefs':
-        run_form_norefs(inputs['fi'], inputs['pos'], ctx)
+        run_form_norefs(inputs['fi'], inputs['pos'], ctx,
+                        inputs.get('mode', 'all'))
     elif f == 'names-sparse':
         run_names_sparse(inputs['mask'],
                          frozenset(tuple(h) for h in inputs['holes']), ctx)
